@@ -375,6 +375,11 @@ func (x *Exec) appendOp(st *State, fr *Frame, cc *ssa.CallCommon, args []Value, 
 		b := x.asTV(st, args[1])
 		return []Outcome{{st: st, vals: []Value{x.byteAppend(st, fr, a, b, cc.Args[0].Type(), instr)}}}
 	}
+	if a.Shrunk {
+		// append(s[:k], ...) writes into the backing array of s in place: every other holder of that array (an earlier
+		// copy of the slice header, e.g. one stored in a result) sees the elements change. Non-byte slices are values here.
+		x.fail("append to a re-sliced slice (s[:k]) reuses the backing array other holders may still read: outside the value model of non-byte slices")
+	}
 	// append(s, elems...) where elems is a slice value built from a varargs array
 	b := x.asTV(st, args[1])
 	blen := seqLen(b.T)
